@@ -9,7 +9,8 @@ Expected outcome per entry: 'caught' (exit 1 + VIOLATION line) for breaking edit
 """
 import subprocess, sys, time, os, json
 
-REPO = "/repo"
+REPO = os.environ.get("LSIM_REPO", "/repo")
+VERIF = os.environ.get("LSIM_VERIF", "/verif")
 CORE = REPO + "/rust/core/src/"
 
 # (name, property, expect, file, old, new)
@@ -106,7 +107,7 @@ def main():
         try:
             open(path, "w").write(src.replace(old, new))
             extra = f" --runs {runs}" if runs else ""
-            r = run(f"cd /verif && bin/check {prop}{extra}")
+            r = run(f"cd {VERIF} && bin/check {prop}{extra}")
             out = r.stdout
             if r.returncode == 1 and "VIOLATION property=" + prop in out:
                 got = "caught"
@@ -124,7 +125,7 @@ def main():
             print("\n".join(out.splitlines()[-15:]))
         sys.stdout.flush()
         results.append((name, prop, expect, got, round(dt, 1)))
-    json.dump(results, open("/verif/target/sens_results.json", "w"), indent=1)
+    json.dump(results, open(VERIF + "/target/sens_results.json", "w"), indent=1)
     bad = [r for r in results if r[2] != r[3]]
     print(f"{len(results) - len(bad)} / {len(results)} as expected")
     return 1 if bad else 0
